@@ -182,10 +182,7 @@ def strTruthy (s : Option String) : Bool :=
 def sanAttrs (san : SanFirst) : Except Err (List (String × String)) :=
   match san with
   | .dirName a => .ok a
-  | .empty => .error (nonlibErr "IndexError" "tpm.san-empty")
-  | .otherName => .error (nonlibErr "TypeError" "tpm.san-othername")
-  | .text => .error (nonlibErr "AttributeError" "tpm.san-text")
-  | .otherKind => .error (nonlibErr "TypeError" "tpm.san-otherkind")
+  | _ => .error (regErr "tpm.san-no-directory-name")
 
 /-- the AIK certificate requirements -/
 def tpmCertProfile (cert : CertView) : Except Err Unit := do
@@ -400,7 +397,7 @@ def verifySafetyNet (st : AttStmt) (authDataRaw : Cbor) (cdj : Bytes) (roots : L
   reject late (regErr "snet.timestamp")
   let leaf ← liftE (headOr x5c (nonlibErr "IndexError" "snet.x5c0"))
   let cert ← loadCert leaf "snet.cert"
-  let cn ← liftE (headOr cert.subjectCNs (nonlibErr "IndexError" "snet.cn-missing"))
+  let cn ← liftE (headOr cert.subjectCNs (regErr "snet.cn-missing"))
   reject (cn != "attest.android.com") (regErr "snet.cn")
   validateChainReg x5c (roots ++ (builtinRootNames.lookup "android-safetynet" |>.getD []).map Root.builtin) "snet"
   let sig ← liftE (Base64.decode parts.2.2)
